@@ -167,7 +167,12 @@ def rule_R5a(src):
         e1 = _stmt_end(src, mask, e0)
         expr = _flat(src[e0:e1])
         pats = _split_top(src[o + 1:c])
-        new = ' '.join('let %s = (%s)[%d];' % (p_, expr, k) for k, p_ in enumerate(pats) if p_ != '_')
+        if re.fullmatch(r'\*?[A-Za-z_][A-Za-z0-9_.]*', expr):
+            new = ' '.join('let %s = (%s)[%d];' % (p_, expr, k) for k, p_ in enumerate(pats) if p_ != '_')
+        else:
+            # the right-hand side is evaluated exactly once
+            tmp = 'vx_a%d' % n
+            new = 'let %s = %s; ' % (tmp, expr) + ' '.join('let %s = %s[%d];' % (p_, tmp, k) for k, p_ in enumerate(pats) if p_ != '_')
         out.append(src[pos:m.start()])
         out.append(_pad(new, src[m.start():e1 + 1]))
         pos = e1 + 1
